@@ -166,8 +166,8 @@ META = {
         "negative values) is evaluated with CBMC's two's complement semantics, i.e. as gcc -fwrapv would",
         "interpreter leg as in C04 (real eval/call on mirdump's icode, hand-built context, trampoline replaced by h_ff_common, alloca = arena)",
         "long double is CBMC's binary128 on both legs; pointer-typed results / external arguments compared for null-ness only",
-        "fp: all bit patterns for add/sub (f, d), neg, moves, comparisons, compare-branches and every conversion; mul/div (f, d) and all long "
-        "double arithmetic on a grid of constants (two copies of an IEEE multiplier/divider: no verdict from the SAT back end in 120 s)",
+        "fp: all bit patterns for fadd/fsub, neg, moves, comparisons, compare-branches and every conversion; fmul/fdiv and all double / long "
+        "double arithmetic on a grid of constants (two copies of an IEEE adder on doubles: 60 s CPU, of a multiplier: no verdict in 120 s)",
     ],
 }
 
